@@ -68,3 +68,22 @@ Lemma shipped_anyorder :
   forallb (fun s => in_anyorder true s || no_tagged s) structs = true /\
   forallb (fun s => in_anyorder false s || no_tagged s) structs = true.
 Proof. split; vm_compute; reflexivity. Qed.
+
+(* ---------- every shipped reply parser reads back what any of its variants serialises ---------- *)
+From Zvt Require Import EnumProps CanonRoundtrip GenCheck.
+
+Definition enum_bytes_ok (e : string * list variant) : bool :=
+  nodup_cf (map v_cf (snd e)) && forallb (fun v => (c_class (snd v) <? 256) && (c_instr (snd v) <? 256)) (snd e).
+Lemma shipped_enums_bytes_ok : forallb enum_bytes_ok enums = true.
+Proof. vm_compute. reflexivity. Qed.
+
+Theorem shipped_reply_roundtrip name vs k nm c v b :
+  In (name, vs) enums -> nth_error vs k = Some (nm, c) -> canon_cmd c v = Some b ->
+  enc_cmd c v = Ok b /\ parse_enum FUEL vs b = Ok (N.of_nat k, v).
+Proof.
+  intros Hin Hk Hcan. pose proof shipped_enums_bytes_ok as S. rewrite forallb_forall in S. specialize (S _ Hin).
+  unfold enum_bytes_ok in S. cbn [snd] in S. apply andb_prop in S. destruct S as [Hnd Hb].
+  rewrite forallb_forall in Hb. specialize (Hb (nm, c) (nth_error_In _ _ Hk)). cbn [snd] in Hb. apply andb_prop in Hb. destruct Hb as [H1 H2].
+  apply (reply_roundtrip FUEL vs k nm c v b Hnd Hk); try lia; [|exact Hcan].
+  apply (shipped_enum_depth name vs nm c Hin (nth_error_In _ _ Hk)).
+Qed.
